@@ -20,6 +20,17 @@ Two layers.
       setdr        restraints.set_distance_restraint on the real search tree (bounds on every path node)
       arange       the candidate grid of persistence.generate_end_end_distances
       ring         real ring MetaMolecule vs Restraints.ringAdj / ringTree (the objects of C07_cycle_closing)
+      accept       ONE trial of RandomWalk.update_positions (bundle of one vector, maxiter 0) vs Restraints.acceptStep
+      avg          graph_utils.compute_avg_step_length / _compute_path_length_cartesian (tree edges, arbitrary edge
+                   lists incl. the empty one), is_branched, restraints.set_restraints (a fake topology carrying
+                   distance_restraints; per-node entries compared as sorted lists: the registration order is not
+                   observable), persistence.sample_end_to_end_distances for one batch (generate_end_end_distances
+                   replaced in-process by the harness' samples, set_distance_restraint wrapped: which molecule of
+                   the batch receives which sample, with which avg / contour) — every residue has its own size
+      boundary     EXHAUSTIVE: every ordering comparison of the five restraint tests below / exactly on / above its
+                   boundary (all axes and signs), through the regions / milestones / direction streams
+      table        the generated comparison table (Generated/RestraintTables.lean, read from the source by
+                   harness/tables/restraints.py) vs the behaviour of the live functions on boundary points
 (2) End-to-end oracle: complete random builds with the real gen_coords / BuildSystem (interposed only to
     read the residue positions after run_system, the arguments of set_distance_restraint and the sampled
     end-to-end distances).  Every selected residue is checked against the build-file description with the
@@ -52,7 +63,8 @@ from common import rat_str, frac
 RULE = ("predicate streams on dyadic grids incl. exact boundary hits (regions x in/out/other token, direction "
         "x angles of both signs, milestones with unplaced references, random connected graphs x dfs flag x "
         "root, distance restraints on tree paths of any length incl. reversed and branched pairs, arange "
-        "grids); end-to-end: random systems of 1-2 molecule types, chains 2-40 / rings 3-30, build files with "
+        "grids, average step / contour on random graphs with per-residue sizes, persistence batches of 1-3 "
+        "molecules, all 10 comparison operators x {below, on, above} exhaustively); end-to-end: random systems of 1-2 molecule types, chains 2-40 / rings 3-30, build files with "
         "every restraint kind in/out, ranges, tolerances, rw_restriction, distance_restraints, "
         "persistence_length, -cycles with cycle_tol; a case is non-trivial when it exercises at least one "
         "restraint; distinct = full input description")
@@ -454,6 +466,221 @@ def run_ring(case):
     edges = [[int(u), int(v)] for u, v in mol.search_tree.edges]
     impl = dict(adj=adj, edges=edges, closing=[edges[0][0], edges[-1][1]])
     return impl, dict(op="ring", n=n, dfs=case["dfs"])
+
+
+# ------------------------------------------------------------------------------------------ average step, batches
+
+def case_avg(rng):
+    """graph_utils.compute_avg_step_length / _compute_path_length_cartesian / is_branched, restraints.set_restraints
+    and the batch bookkeeping of persistence.sample_end_to_end_distances on one random residue graph whose residues
+    all have their own size (pair sizes are dyadic: sums are exact in double)"""
+    n = rng.randint(2, 8)
+    shape = rng.choice(["tree", "path", "path", "ring", "graph"])
+    if shape == "path":
+        edges = [(i, i + 1) for i in range(n - 1)]
+    elif shape == "ring" and n >= 3:
+        edges = [(i, (i + 1) % n) for i in range(n)]
+    else:
+        edges = [(rng.randrange(i), i) for i in range(1, n)]
+        if shape == "graph":
+            for _ in range(rng.randint(1, 2)):
+                a, b = rng.sample(range(n), 2)
+                if (a, b) not in edges and (b, a) not in edges:
+                    edges.append((a, b))
+    rng.shuffle(edges)
+    uniform = rng.random() < 0.25
+    one = dy(rng, 0.25, 1.5, 3)
+    sizes = [[u, v, one if uniform else dy(rng, 0.25, 1.5, 3)] for u in range(n) for v in range(u, n)]
+    declared = []
+    for _ in range(rng.randint(0, 3)):
+        a, b = rng.sample(range(n), 2)
+        if any({a, b} == {d["ref"], d["target"]} for d in declared):
+            continue
+        declared.append(dict(ref=a, target=b, d=dy(rng, 0, 4, 2), tol=dy(rng, 0, 0.5, 2)))
+    start, stop = rng.sample(range(n), 2)
+    if rng.random() < 0.05:
+        stop = start
+    nmol = rng.randint(1, 3)
+    free = [[rng.randrange(n), rng.randrange(n)] for _ in range(rng.choice([0, 0, 1, 3, 6]))]
+    return dict(stream="avg", n=n, edges=[list(e) for e in edges], sizes=sizes, dfs=rng.random() < 0.5,
+                root=rng.randrange(n), declared=declared, start=start, stop=stop, nmol=nmol,
+                mol_order=rng.sample(range(nmol), nmol), samples=[dy(rng, 0.25, 4, 2) for _ in range(nmol)],
+                free_path=free)
+
+
+def _avg_engine(case):
+    import numpy as np
+    from polyply.src.nonbond_engine import NonBondEngine
+    n, nmol = case["n"], case["nmol"]
+    inter = {frozenset(["T%d" % u, "T%d" % v]): (float(size), 1.0) for u, v, size in case["sizes"]}
+    positions = np.ones((nmol * n + 1, 3)) * np.inf
+    positions[-1] = [1.0, 1.0, 1.0]
+    idx = {(m, k): m * n + k for m in range(nmol) for k in range(n)}
+    idx[(nmol, 0)] = nmol * n
+    atypes = ["T%d" % k for _ in range(nmol) for k in range(n)] + ["T0"]
+    return NonBondEngine(positions, idx, atypes, inter, {}, None, cut_off=1.0, boxsize=np.array([50.0, 50.0, 50.0]))
+
+
+def _fl(x):
+    return rat_str(float(x))
+
+
+def run_avg(case):
+    """returns [(stream name, impl, request, converter)]"""
+    import types
+    import numpy as np
+    from polyply.src import graph_utils, restraints, persistence
+    from polyply.src.build_file_parser import PersistenceSpecs
+    engine = _avg_engine(case)
+    edges = [tuple(e) for e in case["edges"]]
+    sizes = [[u, v, rat_str(size)] for u, v, size in case["sizes"]]
+
+    def fresh(root):
+        mol = real_meta(case["n"], edges)
+        mol.root = root
+        mol.dfs = case["dfs"]
+        return mol
+
+    def avg_model(ans):
+        if not ans.get("ok"):
+            return dict(ok=False)
+        return dict(ok=True, avg=_fl(fractions.Fraction(ans["avg"])), contour=ans["contour"])
+
+    out = []
+    mol = fresh(case["root"])
+    tree = [[int(u), int(v)] for u, v in mol.search_tree.edges]
+    for path in (tree, case["free_path"]):
+        try:
+            avg, contour = graph_utils.compute_avg_step_length(mol, 0, engine, [tuple(e) for e in path])
+            impl = dict(ok=True, avg=_fl(avg), contour=rat_str(contour))
+        except ZeroDivisionError:
+            impl = dict(ok=False)
+        out.append(("avgstep", impl, dict(op="avgstep", sizes=sizes, path=path), avg_model))
+    adj = [[int(v), [int(w) for w in mol.neighbors(v)]] for v in mol.nodes]
+    out.append(("is-branched", dict(res=bool(graph_utils.is_branched(mol))), dict(op="branched", adj=adj),
+                lambda a: dict(res=a["res"])))
+
+    # restraints.set_restraints: every declared pair is registered with the average over all tree edges
+    def sorted_store(pairs):
+        return [[node, sorted(rs)] for node, rs in canon_store(pairs)]
+    topology = types.SimpleNamespace(molecules=[mol], distance_restraints={
+        ("m", 0): {(d["ref"], d["target"]): (d["d"], d["tol"]) for d in case["declared"]}})
+    try:
+        restraints.set_restraints(topology, engine)
+        impl = dict(ok=True, store=sorted_store((v, mol.nodes[v].get("distance_restraints", [])) for v in mol.nodes))
+    except (OSError, IndexError, KeyError, ZeroDivisionError):
+        impl = dict(ok=False)
+
+    def store_model(ans):
+        if not ans.get("ok"):
+            return dict(ok=False)
+        return dict(ok=True, store=sorted_store(
+            (v, [[r[0], float(fractions.Fraction(r[1])), float(fractions.Fraction(r[2]))] for r in rs])
+            for v, rs in ans["store"]))
+    out.append(("set-restraints", impl, dict(op="setrestraints", tree=tree, sizes=sizes,
+                                             declared=[dict(ref=d["ref"], target=d["target"], d=rat_str(d["d"]),
+                                                            tol=rat_str(d["tol"])) for d in case["declared"]]),
+                store_model))
+
+    # persistence.sample_end_to_end_distances: one batch; the sampled distances are supplied by the harness
+    mols = [fresh(None) for _ in range(case["nmol"])]
+    order = list(case["mol_order"])
+    seen = dict(calls=[])
+    orig_gen, orig_sdr = persistence.generate_end_end_distances, persistence.set_distance_restraint
+
+    def gen(specs, avg_step_length, max_path_length, box, **kwargs):
+        seen["avg"], seen["contour"] = float(avg_step_length), float(max_path_length)
+        return np.array([float(x) for x in case["samples"]][:len(specs.mol_idxs)])
+
+    def sdr(molecule, target_node, ref_node, distance, avg_step_length, tolerance):
+        who = [i for i, m in enumerate(mols) if m is molecule]
+        seen["calls"].append([who[0] if who else -1, int(target_node), int(ref_node), rat_str(distance),
+                              _fl(avg_step_length), rat_str(tolerance)])
+        return orig_sdr(molecule, target_node, ref_node, distance, avg_step_length, tolerance)
+    persistence.generate_end_end_distances, persistence.set_distance_restraint = gen, sdr
+    try:
+        topology = types.SimpleNamespace(molecules=mols, persistences=[
+            PersistenceSpecs("WCM", 1.0, case["start"], case["stop"], order)])
+        try:
+            persistence.sample_end_to_end_distances(topology, engine)
+            impl = dict(ok=True, avg=_fl(seen["avg"]), contour=rat_str(seen["contour"]), calls=seen["calls"])
+        except (IndexError, ZeroDivisionError, OSError, KeyError):
+            impl = dict(ok=False)
+    finally:
+        persistence.generate_end_end_distances, persistence.set_distance_restraint = orig_gen, orig_sdr
+    btree = [[int(u), int(v)] for u, v in mols[order[0]].search_tree.edges]
+
+    def batch_model(ans):
+        if not ans.get("ok"):
+            return dict(ok=False)
+        return dict(ok=True, avg=_fl(fractions.Fraction(ans["avg"])), contour=ans["contour"],
+                    calls=[[c[0], c[1], c[2], c[3], _fl(fractions.Fraction(c[4])), rat_str(0.0)] for c in ans["calls"]])
+    out.append(("ee-batch", impl, dict(op="eebatch", tree=btree, sizes=sizes, start=case["start"], stop=case["stop"],
+                                       mols=order, samples=[rat_str(x) for x in case["samples"]]), batch_model))
+    return out
+
+
+# ------------------------------------------------------------------------------------------ boundary cases
+
+def boundary_cases():
+    """EXHAUSTIVE: every ordering comparison of the restraint tests (the ten entries of Generated/RestraintTables)
+    below, exactly on and above its boundary, along every axis / sign the test distinguishes; dyadic numbers"""
+    cases = []
+    centre = [4.0, 4.0, 4.0]
+    offs = (1.5, 2.0, 2.5)
+
+    def shifted(axis, x):
+        p = list(centre)
+        p[axis] -= x
+        return p
+    for io in ("in", "out"):
+        for axis in range(3):
+            for sign in (1, -1):
+                for x in offs:
+                    cases.append(dict(stream="regions", boundary=True, p=shifted(axis, sign * x), key=True,
+                                      regions=[dict(kind="sphere", io=io, c=centre, params=[2.0])]))
+        # cylinder: the radius decides (point inside the slab), along x and y
+        for axis in (0, 1):
+            for sign in (1, -1):
+                for x in offs:
+                    cases.append(dict(stream="regions", boundary=True, p=shifted(axis, sign * x), key=True,
+                                      regions=[dict(kind="cylinder", io=io, c=centre, params=[2.0, 1.0])]))
+        # cylinder: the height decides (point inside the radius), both signs of the z difference and of h
+        for sign in (1, -1):
+            for h in (1.0, -1.0):
+                for z in (0.5, 1.0, 1.5):
+                    cases.append(dict(stream="regions", boundary=True, p=shifted(2, sign * z), key=True,
+                                      regions=[dict(kind="cylinder", io=io, c=centre, params=[2.0, h])]))
+        for axis in range(3):
+            for sign in (1, -1):
+                for x in (0.5, 1.0, 1.5):
+                    cases.append(dict(stream="regions", boundary=True, p=shifted(axis, sign * x), key=True,
+                                      regions=[dict(kind="rectangle", io=io, c=centre, params=[1.0, 1.0, 1.0])]))
+    for which in ("upper", "lower"):
+        for axis in range(3):
+            for dist in offs:
+                p = [4.0, 4.0, 4.0]
+                p[axis] += dist
+                drs = [[0, 2.0, 0.0]] if which == "upper" else [[0, 8.0, 2.0]]
+                cases.append(dict(stream="milestones", boundary=True, box=[16.0, 16.0, 16.0], refs=[[4.0, 4.0, 4.0]],
+                                  p=p, drs=drs))
+    # growth direction: a step exactly antiparallel to the normal makes the angle 180.0 exactly
+    for axis in range(3):
+        normal = [0.0, 0.0, 0.0]
+        normal[axis] = 1.0
+        new = [1.0, 1.0, 1.0]
+        new[axis] = 0.0
+        for ref in (180.0, 179.5):
+            cases.append(dict(stream="direction", boundary=True, normal=normal, old=[1.0, 1.0, 1.0], new=new,
+                              angle=-ref, mode="one"))
+    return cases
+
+
+def run_table():
+    """the generated comparison table against the behaviour of the live functions (probe of harness/tables/restraints)"""
+    from tables import restraints as provider
+    live = provider.probe_live()
+    return {k: live[k] for k in provider.KEYS}, dict(op="table")
 
 
 # ------------------------------------------------------------------------------------------ (2) end to end
@@ -949,6 +1176,12 @@ def predicate_cases(ctx):
     cases += [case_accept(rng) for _ in range(ctx.budget(300, 3000))]
     cases += [case_tree(rng, ctx.budget(9, 14)) for _ in range(ctx.budget(120, 1200))]
     cases += [case_arange(rng) for _ in range(ctx.budget(40, 300))]
+    # the streams added later draw from their own generator, so that the cases of the older streams (and of the
+    # end-to-end builds) for a given VERIF_SEED stay what they were
+    sub = random.Random(("avg", ctx.seed, ctx.pid).__repr__())
+    cases += [case_avg(sub) for _ in range(ctx.budget(120, 1500))]
+    cases += boundary_cases()
+    cases.append(dict(stream="table"))
     for n in list(range(3, 12)) + [rng.randint(12, ctx.budget(40, 120)) for _ in range(3)]:
         for dfs in (True, False):
             cases.append(dict(stream="ring", n=n, dfs=dfs))
@@ -967,7 +1200,7 @@ def run_predicates(ctx, cases):
                 reqs.append(req)
             elif stream == "direction":
                 impl, req, near = run_direction(case)
-                if near:
+                if near and not case.get("boundary"):
                     ctx.tally(direction_boundary_skipped=True)
                     continue
                 pending.append((case, [("direction", impl, lambda a: dict(res=a["res"]))], 1))
@@ -997,6 +1230,14 @@ def run_predicates(ctx, cases):
                 reqs.append(req)
                 if samples is not None and not set(rat_str(x) for x in samples) <= set(impl["values"]):
                     ctx.oracle_fail("ee-off-grid", "samples %s are not among the candidates" % samples, case)
+            elif stream == "avg":
+                parts = run_avg(case)
+                pending.append((case, [(name, impl, conv) for name, impl, _, conv in parts], len(parts)))
+                reqs += [req for _, _, req, _ in parts]
+            elif stream == "table":
+                impl, req = run_table()
+                pending.append((case, [("comparison-table", impl, lambda a: {k: v for k, v in a.items() if k != "ok"})], 1))
+                reqs.append(req)
             elif stream == "ring":
                 impl, req = run_ring(case)
                 pending.append((case, [("ring", impl, lambda a: dict(adj=a["adj"], edges=a["edges"], closing=a["closing"]))], 1))
@@ -1010,7 +1251,8 @@ def run_predicates(ctx, cases):
         for (name, impl, conv), ans in zip(parts, answers[pos:pos + width]):
             if impl is None:
                 continue
-            model = conv(ans) if ans.get("ok") or name == "setdr" else dict(error=ans.get("err"))
+            model = conv(ans) if ans.get("ok") or name in ("setdr", "avgstep", "set-restraints", "ee-batch") \
+                else dict(error=ans.get("err"))
             ctx.correspond(name, impl, model, case)
         if case["stream"] == "accept" and width > 1:
             extra = answers[pos + 1:pos + width]
@@ -1053,9 +1295,19 @@ def run_predicates(ctx, cases):
         elif stream == "arange":
             hist = dict(arange_len=min(len(parts[0][1]["values"]), 10))
             key = ("arange", json.dumps(case, sort_keys=True))
+        elif stream == "avg":
+            byname = {name: impl for name, impl, _ in parts}
+            hist = dict(avg_set_restraints=byname["set-restraints"].get("ok"), avg_ee_batch=byname["ee-batch"].get("ok"),
+                        avg_batch_size=case["nmol"])
+            key = ("avg", json.dumps(case, sort_keys=True))
+        elif stream == "table":
+            hist = dict(comparison_table="10 operators, exhaustive")
+            key = ("table",)
         else:
             hist = dict(ring_n="3-11" if case["n"] < 12 else ">=12")
             key = ("ring", case["n"], case["dfs"])
+        if case.get("boundary"):
+            hist["boundary_exhaustive"] = stream
         ctx.case(key, sample=dict(input=case, impl=parts[0][1]) if stream in ("regions", "tree") else None, **hist)
     ctx.traces += len(pending)
 
